@@ -586,7 +586,26 @@ impl FunctionCompiler<'_> {
 
                     dest.write_all(res, *dest_ty, self.module, &mut self.builder);
                 } else {
-                    self.compile_and_cast_into_memory(assign_body.value, *dest_ty, dest);
+                    let mut value = assign_body.value;
+                    while let hir::Expr::Paren(Some(inner)) =
+                        self.world_bodies[self.loc.file()][value]
+                    {
+                        value = inner;
+                    }
+
+                    if matches!(
+                        self.world_bodies[self.loc.file()][value],
+                        hir::Expr::StructLiteral { .. } | hir::Expr::ArrayLiteral { .. }
+                    ) && dest_ty.is_aggregate()
+                    {
+                        // a literal is stored member by member, and its members may read the
+                        // destination (`p = P.{ a = p.b, b = p.a }`), so it has to be complete
+                        // before the destination is overwritten
+                        let val = self.compile_and_cast(assign_body.value, *dest_ty);
+                        dest.write_all(val, *dest_ty, self.module, &mut self.builder);
+                    } else {
+                        self.compile_and_cast_into_memory(assign_body.value, *dest_ty, dest);
+                    }
                 }
             }
             hir::Stmt::Break {
